@@ -259,6 +259,31 @@ def run_action(arm, act):
         elif n == 'DAbort':
             arm.registers.take_data_abort_exception(
                 DataAbortException(DAbort.ALIGNMENT if act['alignment'] else DAbort.PERMISSION, act['secondstage']))
+        elif n in ('MemAGet', 'MemUGet', 'MemUUnprivGet', 'MemASet', 'MemUSet', 'MemUUnprivSet', 'Translate'):
+            addr, size = unlimbs(act['addr']), act['size']
+            val = sum(b << (8 * i) for i, b in enumerate(act.get('val', [])))
+            try:
+                if n == 'MemAGet':
+                    r = arm.mem_a_get(addr, size)
+                elif n == 'MemUGet':
+                    r = arm.mem_u_get(addr, size)
+                elif n == 'MemUUnprivGet':
+                    r = arm.mem_u_unpriv_get(addr, size)
+                elif n == 'MemASet':
+                    r = arm.mem_a_set(addr, size, val)
+                elif n == 'MemUSet':
+                    r = arm.mem_u_set(addr, size, val)
+                elif n == 'MemUUnprivSet':
+                    r = arm.mem_u_unpriv_set(addr, size, val)
+                else:
+                    d = arm.translate_address(addr, act['priv'], act['iswrite'], size, act['aligned'])
+                    pa = d.paddress.physicaladdress
+                    r = None
+                    arm._res = [pa >> 32, limbs(pa & 0xFFFFFFFF)] if isinstance(pa, int) and 0 <= pa < 1 << 40 else [-1, [-1, 0]]
+                if n.endswith('Get'):
+                    arm._res = [(r >> (8 * i)) & 0xFF for i in range(size)] if isinstance(r, int) and 0 <= r < 1 << (8 * size) else [-1]
+            except DataAbortException:
+                out = 'dabort'
         else:
             raise ValueError(n)
     except NotImplementedError:
@@ -285,4 +310,7 @@ def step_event(arm, eid, base, pre_state, act):
           'd': post_delta(pre, post)}
     if arm._last_tb:
         ev['tb'] = arm._last_tb
+    if getattr(arm, '_res', None) is not None:
+        ev['res'] = arm._res
+        arm._res = None
     return ev, post
